@@ -273,6 +273,23 @@ def drive(rec, seed=0, tier="quick"):
             ph.run_mesh([3, 3, 2], with_eigenvectors=True, is_mesh_symmetry=True)
             ph.run_thermal_properties(t_min=0, t_max=600, t_step=150)
             ph.run_total_dos(use_tetrahedron_method=True, freq_pitch=(2.0 + rng.random()))
+            if nacm == "gonze":
+                # Gonze-Lee dipole-dipole kernels with their own use_openmp flag ON, at the points where
+                # K = G + q vanishes (q = 0 and q = a reciprocal lattice point) WITH a q-direction, and at a
+                # general q-point: each under its own tag so that none is merged away as a duplicate shape
+                from phonopy.harmonic.dynamical_matrix import DynamicalMatrixGL
+
+                nac = dict(c["nac"])
+                for full_terms in (False, True):
+                    gl = DynamicalMatrixGL(ph.supercell, ph.primitive, ph.force_constants, nac_params=nac,
+                                           with_full_terms=full_terms, use_openmp=True)
+                    rec.tag = "%s|GL%s setup" % (tag, "full" if full_terms else "")
+                    gl.make_Gonze_nac_dataset()
+                    for label, q, qd in (("q0", [0.0, 0, 0], [1.0, 0, 0]), ("qG", [1.0, 0, 0], [0.0, 1, 0.5]),
+                                         ("qG2", [0.0, -1, 1], [1.0, 1, 0]), ("qgen", [0.13, 0.27, -0.31], None)):
+                        rec.tag = "%s|GL%s %s" % (tag, "full" if full_terms else "", label)
+                        gl.run(np.array(q), q_direction=None if qd is None else np.array(qd))
+                rec.tag = tag
             if nacm is None:
                 ph.run_mesh([2, 2, 2], with_eigenvectors=True, is_mesh_symmetry=False)
                 ph.run_projected_dos(use_tetrahedron_method=True, freq_pitch=3.0)
@@ -509,9 +526,15 @@ def index_map_facts(call):
     """Projection of a case for the coverage requirement of KernelRuns.tla:
     noncontig  - the supercell atoms mapped to some primitive atom are not one consecutive block;
     p2sprefix  - the p2s-like map is 0..n-1."""
+    gllimit = False
+    if call["kernel"] == "recip_dipole_dipole":
+        a = call["args"]
+        # K = G + q vanishes for some G, a q-direction is given, the kernel's own OpenMP flag is on
+        kmin = np.sqrt(((a[2] + a[3]) ** 2).sum(axis=1)).min()
+        gllimit = bool(kmin < a[11] and not a[8] and a[12])
     pos = INDEX_MAPS.get(call["kernel"])
     if pos is None:
-        return dict(indexmaps=False, noncontig=False, p2sprefix=True)
+        return dict(indexmaps=False, noncontig=False, p2sprefix=True, gllimit=gllimit)
     s2p = [int(x) for x in call["args"][pos[0]]]
     p2s = [int(x) for x in call["args"][pos[1]]]
     noncontig = False
@@ -519,4 +542,4 @@ def index_map_facts(call):
         ks = [k for k, x in enumerate(s2p) if x == v]
         if ks[-1] - ks[0] + 1 != len(ks):
             noncontig = True
-    return dict(indexmaps=True, noncontig=noncontig, p2sprefix=(p2s == list(range(len(p2s)))))
+    return dict(indexmaps=True, noncontig=noncontig, p2sprefix=(p2s == list(range(len(p2s)))), gllimit=False)
